@@ -480,6 +480,11 @@ def run(prog, rep, tier):
                     if any(c.key == newb[0].key for c in cands):
                         callers.append((body, b))
         rep.floor('R08.2', len(callers), 1, 'callers of BlocksToFileReader::new')
+        # the obligation exists because new() indexes offsets[0]; once it asks `first()` / `get(0)` instead there is nothing left to guard
+        indexes = [s_ for s_ in census.enumerate_sites(prog, newb[0]) if s_.kind in ('BoundsCheck', 'Index')]
+        if not indexes:
+            rep.ob('R08.2', True, 'R08.2|mla::BlocksToFileReader::new|no-unconditional-index', 'BlocksToFileReader::new does not index its offsets list', newb[0].loc())
+            callers = []
         for body, b in callers:
             guard = None
             for bl in body.blocks:
